@@ -7,7 +7,7 @@ import ast
 import z3
 
 from pyvc.prop import Unit, Bounded
-from pyvc.values import strval, SV, STR, INT, BOOL, FRAC, BEAT, OINT, TNT, TSeq, TEnum, term, is_sym, fresh, fresh_term, coerce
+from pyvc.values import S_at, strval, SV, STR, INT, BOOL, FRAC, BEAT, OINT, TNT, TSeq, TEnum, term, is_sym, fresh, fresh_term, coerce
 from pyvc.execu import HObj, NTVal, LoopSpec, yield_slot, seq_of_items, local_slot, PyRaise
 from pyvc import models as M
 
@@ -116,7 +116,7 @@ def LF():
     if "LF" not in _SF:
         I = z3.IntSort()
         _SF["LF"] = z3.Function("row_notes_prefix", I, I, I, I, S_, S_, I, z3.SeqSort(NT.sort()))
-        _SF["MF"] = z3.Function("measure_notes_prefix", I, I, z3.SeqSort(S_), I, z3.SeqSort(NT.sort()))
+        _SF["MF"] = z3.Function("measure_notes_prefix", I, I, TSeq(STR).sort(), I, z3.SeqSort(NT.sort()))
     return _SF["LF"]
 
 
@@ -152,7 +152,7 @@ def MF_unfold(p, m, lines, l):
     NT, _ = note_sorts()
     f, g = MF(), LF()
     sub = z3.Length(lines)
-    raw = M.str_strip(lines[l])
+    raw = M.str_strip(S_at(lines, l))
     cl = ks_clean(raw)
     return [f(p, m, lines, z3.IntVal(0)) == z3.Empty(z3.SeqSort(NT.sort())),
             z3.Implies(z3.And(l >= 0, l < sub),
@@ -191,7 +191,7 @@ class IterMeasure(Unit):
         ex.callee_contracts["simfile.notes.NoteData._extract_keysound_indices"] = extract_contract
 
         def row(l):
-            raw = M.str_strip(lines[l])
+            raw = M.str_strip(S_at(lines, l))
             return raw, ks_clean(raw)
 
         def wellformed_row(l):
@@ -238,8 +238,8 @@ def IFn():
     NT, _ = note_sorts()
     if "IF" not in _SF:
         I = z3.IntSort()
-        _SF["IF"] = z3.Function("section_notes_prefix", I, z3.SeqSort(S_), I, z3.SeqSort(NT.sort()))
-        _SF["OF"] = z3.Function("chart_notes_prefix", z3.SeqSort(S_), I, z3.SeqSort(NT.sort()))
+        _SF["IF"] = z3.Function("section_notes_prefix", I, TSeq(STR).sort(), I, z3.SeqSort(NT.sort()))
+        _SF["OF"] = z3.Function("chart_notes_prefix", TSeq(STR).sort(), I, z3.SeqSort(NT.sort()))
     return _SF["IF"]
 
 
@@ -273,23 +273,23 @@ class NoteDataIter(Unit):
             return [("yielded", vals["yielded"].t == OFn()(secs, p_))]
 
         def outer_using(ex_, fr, p_, vals):
-            ms = M.str_split(secs[p_], strval(","))
+            ms = M.str_split(S_at(secs, p_), strval(","))
             return [OFn()(secs, z3.IntVal(0)) == empty,
                     z3.Implies(z3.And(p_ >= 0, p_ < z3.Length(secs)),
                                OFn()(secs, p_ + 1) == z3.Concat(OFn()(secs, p_), IFn()(p_, ms, z3.Length(ms))))]
 
         def inner_inv(ex_, fr, k, vals):
             p_ = term(fr.locals["p"], INT)
-            ms = M.str_split(secs[p_], strval(","))
+            ms = M.str_split(S_at(secs, p_), strval(","))
             y0 = fr.loop_entry[(self.Q, 1)]["yielded"].t
             return [("yielded", vals["yielded"].t == z3.Concat(y0, IFn()(p_, ms, k)))]
 
         def inner_using(ex_, fr, k, vals):
             p_ = term(fr.locals["p"], INT)
-            ms = M.str_split(secs[p_], strval(","))
+            ms = M.str_split(S_at(secs, p_), strval(","))
             return [IFn()(p_, ms, z3.IntVal(0)) == empty,
                     z3.Implies(z3.And(k >= 0, k < z3.Length(ms)),
-                               IFn()(p_, ms, k + 1) == z3.Concat(IFn()(p_, ms, k), MEAS(p_, k, M.str_strip(ms[k]))))]
+                               IFn()(p_, ms, k + 1) == z3.Concat(IFn()(p_, ms, k), MEAS(p_, k, M.str_strip(S_at(ms, k)))))]
 
         ex.loop_specs[(self.Q, 0)] = LoopSpec([yield_slot(NT)], outer_inv, outer_using)
         ex.loop_specs[(self.Q, 1)] = LoopSpec([yield_slot(NT)], inner_inv, inner_using)
